@@ -365,9 +365,9 @@ func (e *Engine) runPath(h *Harness, fn *ssa.Function, prefix []int, solver *Sol
 					status = "ok"
 				}
 			case targetPanic:
-				status, reason = "panic", "panic: "+e.renderPanic(ex, r.v)
+				status, reason = "panic", "panic: "+e.renderPanic(ex, r.v)+" at "+it.panicSite
 			case runtimeError:
-				status, reason = "panic", r.Error()
+				status, reason = "panic", r.Error()+" at "+it.panicSite
 			default:
 				status, reason = "inconclusive", fmt.Sprintf("engine error: %v", r)
 			}
